@@ -219,6 +219,21 @@ theorem reset_stops_coroutine_first :
     | decide
     | fail "PROTOCOL RULE BROKEN (C13, history independence) in zygo/parser.go Parser.Reset / Parser.ResetAddNewInput: the suspended coroutine of an unfinished parse must be stopped (p.stop()) BEFORE p.lexer.Reset() / p.lexer.AddNextStream(s) and BEFORE p.sendMe is replaced. iter.Pull's stop() lets the coroutine run to its end; the wait loops of ParseList/ParseArray/ParseInfix/ParseBlockComment/ParseBacktickString answer the stopped yield with (SexpEnd, nil) and their callers go on peeking at the lexer, so a lexer that already holds the next text is read by the dying parse (Model/Abandon.unwind; Props/C13.lexer_first_counterexample, reply_first_counterexample). See Generated/ResetOrder.lean for the order found."
 
+/-- nothing in `l` before the first `"call:stop"` is `x` -/
+def notBeforeStop (x : String) (l : List String) : Bool := !((l.takeWhile (· != "call:stop")).contains x)
+
+/-- **Table fact (T1), second rule.** `p.yield` is the function the parser functions call to ask
+for more input; the unwinding coroutine still calls it (`parser.yield(parser.sendMe)` in every
+wait loop it passes). It is not part of the model's state, so the rule is stated on the table:
+it is cleared only after the coroutine has been stopped. -/
+theorem yield_cleared_after_stop :
+    notBeforeStop "assign:yield" Generated.ResetOrder.parserReset = true ∧
+    notBeforeStop "assign:yield" Generated.ResetOrder.parserResetAddNewInput = true ∧
+    notBeforeStop "assign:yield" Generated.ResetOrder.parserStop = true := by
+  first
+    | decide
+    | fail "PROTOCOL RULE BROKEN (C13, history independence) in zygo/parser.go Parser.Reset / ResetAddNewInput / Stop: p.yield must not be cleared before p.stop() has run: the stopped coroutine of an unfinished parse still calls parser.yield(...) in every wait loop it unwinds through (a nil function there is a host panic in the middle of the next load). See Generated/ResetOrder.lean for the order found."
+
 /-- `Stop` stops the coroutine too (used by `Close`) -/
 theorem stop_stops : "call:stop" ∈ Generated.ResetOrder.parserStop := by decide
 
